@@ -12,7 +12,9 @@
    (two ios.BytesReplacingReader) is the pure function [strip_crlf].
    Executable definitions only; proofs are in Proofs/Edi*.v. *)
 From Coq Require Import List NArith Bool Arith.
-From Coq.Strings Require Import Byte.
+(* Byte is re-exported: the generated Cases files write byte strings as explicit lists [x41; x2a; ...]
+   (elaborating those is about four times cheaper than hex string literals) *)
+From Coq.Strings Require Export Byte.
 Import ListNotations.
 From OV Require Import Base.Bytes Base.Cases Base.Utf8 Gen.EdiConsts.
 
@@ -490,18 +492,20 @@ Record ecase := mkECase {
 }.
 
 Definition check_case (c : ecase) : bool :=
+  (* full_read_all = bind nv_read_all full_results: the tokenisation is evaluated once *)
   match nv_read_all (ec_cfg c) (ec_input c) with
-  | Ok l => list_eqb segres_eqb l (ec_raw c)
+  | Ok l =>
+      list_eqb segres_eqb l (ec_raw c)
+      && match ec_full c with
+         | None => true
+         | Some (sname, decls, obs) =>
+             match full_results (optb (c_rel (ec_cfg c))) sname decls l with
+             | Ok r => list_eqb readres_eqb r obs
+             | _ => false
+             end
+         end
   | _ => false
   end
-  && match ec_full c with
-     | None => true
-     | Some (sname, decls, obs) =>
-         match full_read_all (ec_cfg c) sname decls (ec_input c) with
-         | Ok l => list_eqb readres_eqb l obs
-         | _ => false
-         end
-     end
   && match ec_logical c with
      | None => true
      | Some segs =>
